@@ -135,5 +135,27 @@ package main
 // Regression after parts (a5)/(c2): all 27 patches exit 1 in the quick tier (enc-listend-56 needed the harness to
 // report a non-canonical instance encoding instead of stopping); the seeded-c patch twice with the same 6 signatures.
 //
+// Race pass (RACEPASS + racepass.go, added after a seeded change in lib/merkle showed that a cooperative enumeration
+// cannot see shared scratch state): run.sh builds the checker with -race and runs C16_RACE_PASS=1 once before the main
+// run: 8 goroutines behind a barrier on private values; phase A = first use of cold types (7 cases on 5 struct types
+// shared by all goroutines and first used at the same moment, 3 reflect.StructOf types per goroutine, nil / nilList /
+// nilString / optional / tail tags, RawValue, Transaction / Receipt / ReceiptForStorage / Log / StateAccount; expected
+// bytes from the go-ethereum reference so that lib/rlp's type cache is cold); phase B = 250 fixed iterations x 125
+// results (big integers of 13 size classes x 4 leading bytes incl. refusal of the zero-padded form, composite values,
+// RawValue, Encode to a writer, EncodeToReader read fully / piecewise past EOF / abandoned, DecodeBytes, Stream and
+// ListStream sequences, Split / CountValues / iterator / SplitUint64 / AppendUint64, chain types with hashes and sizes),
+// every result compared with the value computed single-threaded. About 3 s under -race (plus the -race build, cached).
+// Unchanged tree: race_pass clean (no detector report, no differing result). Two mutants of my own demonstrate it:
+//
+//	shared-scratch-buffer                   decode.go decodeBigInt: package-level    pass (also   yes      1   C16|oracle=data-race|at=lib/rlp.(*Stream).readFull   (3/3 runs)
+//	                                        scratch instead of Stream.uintbuf        with -race)
+//	reader-buffer-returned-early            encode.go EncodeToReader: buffer back   pass         yes      1   C16|oracle=data-race|at=lib/rlp.(*encBuffer).reset    (2/2 runs)
+//	                                        in the pool while the reader lives
+//
+// Neither is visible to any enumeration of this check (single-goroutine results are bit-identical). When the pass
+// reports a race, observations of the parallel phases that do not reproduce single-threaded are counted
+// (observations_under_reported_race_not_reproduced), not reported; a differing result without a detector report
+// becomes C16|oracle=concurrent-result-differs-from-single-threaded-value.
+//
 // Dropped as equivalent for the property: removing the ErrElemTooLarge test in Stream.Kind (willRead still
 // refuses the read, only the error kind changes; the repository's own tests notice the error kind).
